@@ -485,6 +485,37 @@ fn run(ctx: &mut Ctx) {
             }
         }
     }
+    // the two words exchanged or related: a version word that is a legal stride, with small size words
+    ctx.bound("swapped_words", "desc_version in {40, 48, 56, 64, 128} (legal strides) x desc_size in {0, 1, 2, 8, 40, 48, 56, 64, the version word itself} x every map length 0..=200: only version 1 is valid");
+    for ver in [40u32, 48, 56, 64, 128] {
+        for d in [0u32, 1, 2, 8, 40, 48, 56, 64, ver] {
+            for l in 0..=200usize {
+                let img = image(d, ver, l);
+                let describe = || J::obj().set("body", "canonical-swapped").set("desc_size", d).set("desc_version", ver).set("map_len", l);
+                ctx.leaf(describe, |ctx| {
+                    ctx.state_direct();
+                    ctx.nontrivial();
+                    canonical(ctx, &arena, d, ver, l, &img);
+                });
+            }
+        }
+    }
+    // map lengths that are whole pages (a firmware buffer handed over as it is) and not multiples of the stride
+    ctx.bound("page_sized_maps", "map lengths 4088, 4096, 4104, 8192, 12288 and 16384 x desc_size in {40, 48, 56, 64, 72, 80, 96, 128}: valid exactly when the length is a multiple of the stride");
+    {
+        let pg = Arena::new(6);
+        for l in [4088usize, 4096, 4104, 8192, 12288, 16384] {
+            for d in [40u32, 48, 56, 64, 72, 80, 96, 128] {
+                let img = image(d, 1, l);
+                let describe = || J::obj().set("body", "canonical-pages").set("desc_size", d).set("desc_version", 1).set("map_len", l);
+                ctx.leaf(describe, |ctx| {
+                    ctx.state_direct();
+                    ctx.nontrivial();
+                    canonical(ctx, &pg, d, 1, l, &img);
+                });
+            }
+        }
+    }
     // the version word: every single-bit flip of 1 and the 8/16/24-bit boundary values (a comparison on part of the word)
     versions.clear();
     versions.extend((0..32).map(|b| 1u32 ^ (1 << b)));
